@@ -246,7 +246,7 @@ def check_content(ctx, out):
     out.inst("C03.content", n, 2, ["content := start.comment.end .. end.comment.start (bytes and positions)"])
 
 
-def check_rebase(ctx, out):
+def check_rebase(ctx, out, rule="C03.rebase"):
     n = 0
     found = False
     for b in ctx.reachable_bodies():
@@ -267,17 +267,17 @@ def check_rebase(ctx, out):
             wl = writes.get((pos, "line"))
             wc = writes.get((pos, "character"))
             if wl is None:
-                out.viol("C03.rebase", "C03.rebase|%s|line" % pos, ctx.where(b), "nested comments' %s line is not translated into the parent document" % pos)
+                out.viol(rule, "%s|" % rule + "%s|line" % pos, ctx.where(b), "nested comments' %s line is not translated into the parent document" % pos)
                 continue
             if wc is None:
-                out.viol("C03.rebase", "C03.rebase|%s|column" % pos, ctx.where(b),
+                out.viol(rule, "%s|" % rule + "%s|column" % pos, ctx.where(b),
                          "nested comments are translated by row but their %s column is not: a comment in an indented HTML block (list item, block quote) is reported at the wrong column" % pos)
                 continue
             labs = wc[3]
             if P.has_call(labs, r"tree_sitter::Node::<'tree>::start_position$") and P.has_path(labs, "column"):
                 n += 1
             else:
-                out.viol("C03.rebase", "C03.rebase|%s|column-source" % pos, ctx.where(b, wc[2]["span"]), "the %s column offset does not come from the HTML block's start column" % pos)
+                out.viol(rule, "%s|" % rule + "%s|column-source" % pos, ctx.where(b, wc[2]["span"]), "the %s column offset does not come from the HTML block's start column" % pos)
             # guard: first row only, tested before the row is translated
             gs = util.guards(ctx, b, wc[0])
             gok = False
@@ -290,16 +290,16 @@ def check_rebase(ctx, out):
                         # the line write must not precede the test
                         if cfg.dominates(wl[0], br) and wl[0] != br:
                             gok = False
-                            out.viol("C03.rebase", "C03.rebase|%s|guard-after-row" % pos, ctx.where(b, wc[2]["span"]),
+                            out.viol(rule, "%s|" % rule + "%s|guard-after-row" % pos, ctx.where(b, wc[2]["span"]),
                                      "the first-row test for the %s column is evaluated after the row has been translated to document coordinates: it only holds for HTML blocks on line 1 of the file" % pos)
                             gok = None
             if gok:
                 n += 1
             elif gok is False:
-                out.viol("C03.rebase", "C03.rebase|%s|guard" % pos, ctx.where(b, wc[2]["span"]), "the %s column is shifted on rows other than the nested text's first row" % pos)
+                out.viol(rule, "%s|" % rule + "%s|guard" % pos, ctx.where(b, wc[2]["span"]), "the %s column is shifted on rows other than the nested text's first row" % pos)
     if not found:
-        out.viol("C03.rebase", "C03.rebase|anchor", "-", "no translation of nested comment positions found in the Markdown parser")
-    out.inst("C03.rebase", n, 4, ["start/end: line += row; character += column iff line == 1 (tested before the row shift)"])
+        out.viol(rule, "%s|" % rule + "anchor", "-", "no translation of nested comment positions found in the Markdown parser")
+    out.inst(rule, n, 4, ["start/end: line += row; character += column iff line == 1 (tested before the row shift)"])
 
 
 def check_order(ctx, out):
@@ -327,8 +327,14 @@ def run(ctx, out, tier):
     check_content(ctx, out)
     check_rebase(ctx, out)
     check_order(ctx, out)
-    # shared with C20/C12: sort key and stack discipline
-    from rules import C20 as c20
+    # a comment is only found if the file is parsed with its own language's grammar (shared with C16),
+    # and a tag inside a multi-line comment is placed by the last newline before it (shared with C10)
+    from rules.C16 import check_grammar, extract_table
+    lp, rows = extract_table(ctx)
+    mods = sorted({m for k, m, sp in (rows or []) if m})
+    check_grammar(ctx, out, mods, rule="C03.grammar")
+    from rules.C10 import check_tagpos
+    check_tagpos(ctx, out, "C03.tagpos")
     return meta()
 
 
